@@ -61,6 +61,8 @@ type Contract struct {
 	Props    []string
 	Requires []Clause
 	Ensures  []Clause
+	Checks   []Clause // callee-side only; may mention locals at the return
+	Effects  []Clause // definitional ghost effects: assumed at call sites, never checked
 	Modifies []*Expr
 	HasMod   bool
 	Loops    map[int]*LoopSpec
@@ -173,17 +175,22 @@ func (sp *Specs) LoadFile(path, defaultPkg string) error {
 				sp.Markers = append(sp.Markers, where+": trusted (body not verified) "+cur.Key)
 			case "inline":
 				cur.Inline = true
-			case "requires", "ensures":
+			case "requires", "ensures", "checks", "effect":
 				props, rest2 := takeProps(rest)
 				e, err := ParseExpr(rest2)
 				if err != nil {
 					return fail(err)
 				}
 				c := Clause{E: e, Src: strings.TrimSpace(rest2), Props: props}
-				if word == "requires" {
+				switch word {
+				case "requires":
 					cur.Requires = append(cur.Requires, c)
-				} else {
+				case "ensures":
 					cur.Ensures = append(cur.Ensures, c)
+				case "checks":
+					cur.Checks = append(cur.Checks, c)
+				case "effect":
+					cur.Effects = append(cur.Effects, c)
 				}
 			case "modifies":
 				items, err := parseExprList(rest)
@@ -655,4 +662,17 @@ func (e *Expr) String() string {
 		return "(" + e.Kind + " " + strings.Join(vs, ", ") + " :: " + e.Args[0].String() + ")"
 	}
 	return "?" + e.Kind
+}
+
+// ghostNames collects $ghost variable names mentioned in an expression.
+func ghostNames(e *Expr, out map[string]bool) {
+	if e == nil {
+		return
+	}
+	if e.Kind == "ident" && strings.HasPrefix(e.Name, "$") {
+		out[e.Name] = true
+	}
+	for _, a := range e.Args {
+		ghostNames(a, out)
+	}
 }
